@@ -184,7 +184,11 @@ class P:
         return P.atom(_opaque(self), e)
 
     def __eq__(self, o):
-        return self.t == asP(o).t
+        if isinstance(o, P):
+            return self.t == o.t
+        if isinstance(o, (int, Fraction)) and not isinstance(o, bool):
+            return self.t == asP(o).t
+        return False
 
     def __hash__(self):
         return hash(tuple(sorted(self.t.items())))
